@@ -41,6 +41,7 @@ Inductive stmt :=
 | SEmit (tag : string) (args : list expr)
 | SCall (xs : list string) (tag : string) (args : list expr)
 | SRange (x : string) (l : string) (body : list stmt)     (* for _, x := range l { body }: l is a local holding a slice, else a list cell *)
+| SForTo (i : string) (hi : expr) (body : list stmt)      (* for i := 0; i < hi; i++ { body }: hi is read once, on entry *)
 | SBreak
 | SCont
 | SCallP (xs : list string) (p : string) (args : list expr).   (* xs := p(args) for a function of the environment that is a fixed
@@ -137,6 +138,16 @@ Fixpoint exec_s (results : list string) (s : stmt) (st : state) {struct s} : sta
                      | other => other
                      end
          end) (if truthy (eval c st) then t else e) st
+  | SForTo x hi body =>
+      range_loop (fun st' =>
+        (fix go (b : list stmt) (st : state) {struct b} : state * ctl :=
+           match b with
+           | [] => (st, Next)
+           | y :: b' => match exec_s results y st with
+                        | (st', Next) => go b' st'
+                        | other => other
+                        end
+           end) body st') x (map (fun k => VZ (Z.of_nat k)) (seq 0 (Z.to_nat (as_z (eval hi st))))) st
   | SRange x l body =>
       range_loop (fun st' =>
         (fix go (b : list stmt) (st : state) {struct b} : state * ctl :=
@@ -180,10 +191,14 @@ Proof.
 Qed.
 End Interp.
 
+(* an iteration that ends by falling through or by `continue`: both mean "on to the next element" *)
+Definition goes_on (c : ctl) : Prop := c = Next \/ c = Cont.
+
 (* does a statement contain a range loop?  (used to cut a body at its loops) *)
 Fixpoint has_range (s : stmt) : bool :=
   match s with
   | SRange _ _ _ => true
+  | SForTo _ _ _ => true
   | SIf _ t e => (fix any (l : list stmt) : bool := match l with [] => false | x :: r => has_range x || any r end) t
                  || (fix any (l : list stmt) : bool := match l with [] => false | x :: r => has_range x || any r end) e
   | _ => false
